@@ -131,9 +131,17 @@ AluIdxC(u) == { <<"C", o, 3, 0, ai, 1, I32[ii]>> : o \in ImmForms, ai \in 1..NV,
 AluIdxD(u) == { <<"D", o, p[1], p[2], ai, 1, w>> :
                o \in {LE, BE}, w \in {16, 32, 64}, p \in {<<0, 0>>, <<7, 2>>, <<9, 10>>}, ai \in 1..NV }
 
+\* Z: division and modulo by zero (register and immediate, 32 and 64 bit), every dividend - never sampled away
+DivModOps == {o \in AluOpcodes : Op(o) \in {DIV, MOD}}
+AluIdxZ(u) == { <<"Z", o, 3, 7, ai, 1, 0>> : o \in DivModOps, ai \in 1..NV }
+\* S: shifts by every count around the masks (register and immediate forms)
+ShiftOps == {o \in AluOpcodes : Op(o) \in {LSH, RSH, ARSH}}
+AluIdxS(u) == { <<"S", o, 2, 6, ai, bi, I32[ii]>> : o \in ShiftOps, ai \in {13, 14, 16, 18}, bi \in 4..8, ii \in 5..9 }
+
 AluCases(u) ==
   { AluCase(t[1], t[2], t[3], t[4], t[5], t[6], t[7], "nodata") :
-      t \in Sample(AluIdxA(u) \cup AluIdxB(u) \cup AluIdxC(u) \cup AluIdxD(u)) }
+      t \in Sample(AluIdxA(u) \cup AluIdxB(u) \cup AluIdxC(u) \cup AluIdxD(u)) \cup AluIdxZ(u)
+            \cup {x \in AluIdxS(u) : Keep(HashId(x) \div 3)} }
   \cup
   \* E: a few on every VM kind (never sampled away)
   { AluCase("E", o, 2, 5, 16, 15, 0, VmKinds[k]) : o \in {15, 12, 31, 191, 188, 103, 108}, k \in 1..4 }
@@ -465,7 +473,14 @@ RecCase(N, ci) == [BaseCase EXCEPT !.id = <<"rec", N, ci, 0, 0, 0, 0>>, !.fam = 
 \* variants reproducing the recorded x86-64 JIT finding (the callee shares the caller's r10)
 WithJitDev(S) == S \cup (IF "jit_r10" \in KnownDevs THEN { [c EXCEPT !.dev = {"jit_r10"}] : c \in S } ELSE {})
 
+\* a local call whose displacement equals the id of a registered helper must still be a local call
+\* (and be refused by Cranelift): callx +k ; exit ; k-1 fillers ; mov r0, 42 ; exit, helpers = {k}
+LocalVsHelper(k) ==
+  [BaseCase EXCEPT !.id = <<"lvh", k, 0, 0, 0, 0, 0>>, !.fam = "calls", !.vm = "nodata", !.helpers = {k},
+                   !.prog = Flat(<< CallxI(k), ExitI >> \o [j \in 1..(k-1) |-> Mov64I(0, 7)] \o << Mov64I(0, 42), ExitI >>)]
+
 CallsCases(u) ==
+  { LocalVsHelper(k) : k \in {1, 2, 6} } \cup
   WithJitDev( { ChainCase(t[1], t[2], t[3]) : t \in {x \in (0..9) \X {0, 1} \X (1..7) : Keep(x[1] + 3*x[2] + 5*x[3])} }
               \cup { RecCase(N, ci) : N \in 0..9, ci \in {1, 2, 3} } )
 
